@@ -73,7 +73,7 @@ class World(object):
         rng = random.Random(h)
         if rng.random() < self.raise_rate:
             return ('raise', UserError if rng.random() < 0.7 else UserError2)
-        g = Gen(rng)
+        g = Gen(rng, multi_sets=False)
         payload = g.value(2, sharing=self.sharing)
         if rng.random() < self.raw_rate:
             if rng.random() < 0.4:
@@ -696,7 +696,9 @@ class Built(object):
         return e['lit']
 
     def _exec_step(self, s, nested=False):
-        pos = self._next_step()
+        # steps nested inside an intercepted body do not consume positions: bodies do not run during replay, and fault
+        # positions must mean the same step in the live run, the twin and the replay
+        pos = self._next_step() if not nested else None
         fault = None if nested else self.faults.get(pos)
         if not nested:
             self.trace.append((pos, s['op'], s.get('decl')))
